@@ -3,6 +3,7 @@ package p_db
 import (
 	"context"
 	"fmt"
+	"sort"
 	"strings"
 	"testing"
 	"time"
@@ -22,6 +23,12 @@ import (
 // Drawn chain histories (blocks, permanent merges, pool writes); after every block and every merge the storage is
 // closed and reopened and a snapshot of every read (objects re-encoded, *Bytes reads raw: encoder hint, meta, body)
 // taken before closing must equal, byte for byte, the snapshot taken after reopening.
+//
+// Center.RemoveBlocks(height) (launch's removePrevBlockFunc: the previous block was found wrong) is one of the drawn
+// steps; the storage is closed and reopened right after it, before a new block of that height exists. The snapshot keeps
+// asking for everything that was ever stored (heights, suffrage heights and state keys of removed blocks too), so a
+// removal that only happened in memory shows up as a read that was "not found" before closing and is answered after
+// reopening.
 
 type c20PoolItems struct {
 	Ops       []base.Operation
@@ -100,6 +107,99 @@ func c20PoolSnapshot(e *dbEnv, pool *isaacdatabase.TempPool, it *c20PoolItems) d
 	return s
 }
 
+// c20Ever remembers what the chain ever held, also in blocks that were removed again: the reads of the removed heights
+// are part of "every read" and have to give the same (not found) answer on both sides of a reopen.
+type c20Ever struct {
+	MaxH    base.Height
+	MaxSufH base.Height
+	Keys    map[string]struct{}
+	Removed []base.Height // arguments of the effective RemoveBlocks calls
+}
+
+func (v *c20Ever) note(b *dbBlock) {
+	if b.H > v.MaxH {
+		v.MaxH = b.H
+	}
+
+	if b.Suf != nil && b.SufH > v.MaxSufH {
+		v.MaxSufH = b.SufH
+	}
+
+	for k := range b.States {
+		v.Keys[k] = struct{}{}
+	}
+}
+
+// c20EverSnapshot renders the reads dbSnapshotReads does not ask for any more once blocks were removed: block maps and
+// proofs by block height above last+1, proofs by suffrage height above max+1, states only removed blocks wrote.
+func c20EverSnapshot(e *dbEnv, prefix string, rd dbReader, m *dbModel, v *c20Ever) dbSnap {
+	var s dbSnap
+
+	for h := m.lastHeight() + 2; h <= v.MaxH+1; h++ {
+		bm, found, err := rd.BlockMap(h)
+		s.add(fmt.Sprintf("%sBlockMap(%d)", prefix, h), e.marshal(bm, found, err))
+		s.add(fmt.Sprintf("%sBlockMapBytes(%d)", prefix, h), dbBytesTriple(rd.BlockMapBytes(h)))
+
+		proof, found, err := rd.SuffrageProofByBlockHeight(h)
+		s.add(fmt.Sprintf("%sSuffrageProofByBlockHeight(%d)", prefix, h), e.marshal(proof, found, err))
+	}
+
+	for sh := m.maxSuffrageHeight() + 2; sh <= v.MaxSufH+1; sh++ {
+		proof, found, err := rd.SuffrageProof(sh)
+		s.add(fmt.Sprintf("%sSuffrageProof(%d)", prefix, sh), e.marshal(proof, found, err))
+		s.add(fmt.Sprintf("%sSuffrageProofBytes(%d)", prefix, sh), dbBytesTriple(rd.SuffrageProofBytes(sh)))
+	}
+
+	inModel := map[string]bool{}
+	for _, k := range m.stateKeys() {
+		inModel[k] = true
+	}
+
+	keys := make([]string, 0, len(v.Keys))
+
+	for k := range v.Keys {
+		if !inModel[k] {
+			keys = append(keys, k)
+		}
+	}
+
+	sort.Strings(keys)
+
+	nbig := 0
+
+	for _, k := range keys {
+		if strings.HasPrefix(k, "big") {
+			if nbig++; nbig%37 != 1 {
+				continue
+			}
+		}
+
+		st, found, err := rd.State(k)
+		s.add(fmt.Sprintf("%sState(%s)", prefix, k), e.marshal(st, found, err))
+		s.add(fmt.Sprintf("%sStateBytes(%s)", prefix, k), dbBytesTriple(rd.StateBytes(k)))
+	}
+
+	return s
+}
+
+// c20Resurrected finds the first read of the center or the permanent store that answered "not found" (or false) before
+// closing and answers something after reopening.
+func c20Resurrected(before, after dbSnap) (name string, vb []byte, found bool) {
+	for i := 0; i < len(before) && i < len(after); i++ {
+		if before[i].Name != after[i].Name || strings.HasPrefix(before[i].Name, "pool.") {
+			continue
+		}
+
+		a, b := string(before[i].Value), string(after[i].Value)
+
+		if (a == "<not found>" && b != a && !strings.HasPrefix(b, "error: ")) || (a == "false <nil>" && b == "true <nil>") {
+			return before[i].Name, after[i].Value, true
+		}
+	}
+
+	return "", nil, false
+}
+
 // c20Sig names the root cause of a before/after difference.
 func c20Sig(name string, before, after []byte) string {
 	switch {
@@ -127,15 +227,20 @@ func TestC20(t *testing.T) {
 	defer r.Finish()
 	r.Rule("histories of 5..N drawn steps over a production-path chain (3-5 genesis nodes; blocks with filler states, candidate/join/disjoin, " +
 		"policy changes, not-in-state operations, empty and 350-key blocks; state caches 0/3/4096; mem storage, thorough also on-disk leveldb): " +
-		"next block, MergeAllPermanent, pool writes (operations, proposals, INIT/ACCEPT ballots, expel operations, empty heights). After every " +
-		"block and every merge: snapshot of every read of the center, of the permanent database and of the pool (objects re-encoded with the " +
-		"JSON encoder; *Bytes reads as encoder hint + meta + body), close pool/center/storage, reopen the same storage, snapshot again, compare " +
-		"byte for byte (whether the answers are the right ones is C19's business). non-trivial: a reopen with a suffrage " +
-		"proof in the permanent store and >= 1 unmerged temp; distinct by (genesis size, cache, storage, step list)")
+		"next block, MergeAllPermanent, Center.RemoveBlocks(last | any unmerged height | merged or absent height = no-op) followed by the removal " +
+		"of the block files like launch.removePrevBlockFunc, pool writes (operations, proposals, INIT/ACCEPT ballots, expel operations, empty " +
+		"heights). After every block, every merge and every RemoveBlocks (before a new block of the removed height exists): snapshot of every " +
+		"read of the center, of the permanent database and of the pool (objects re-encoded with the JSON encoder; *Bytes reads as encoder hint + " +
+		"meta + body; block maps, proofs and states of removed heights stay in the list of reads), close pool/center/storage, reopen the same " +
+		"storage, snapshot again, compare byte for byte (whether the answers are the right ones is C19's business). non-trivial: a reopen with " +
+		"a suffrage proof in the permanent store and >= 1 unmerged temp, or a reopen right after an effective RemoveBlocks; distinct by " +
+		"(genesis size, cache, storage, step list)")
 	r.Floor(int64(r.N(15, 400)))
 	r.Assume("quiescent points only: no block write or merge is in flight when the storage is closed",
 		"TempPool.LastVoteproofs is kept in memory only by design and is not part of the stored pool contents",
-		"goleveldb (mem and file storage) is trusted")
+		"goleveldb (mem and file storage) is trusted",
+		"RemoveBlocks never takes the genesis block (the chain could not go on); after an effective removal the harness removes the block files "+
+			"of the removed heights like launch.removePrevBlockFunc does")
 
 	maxSteps := r.N(12, 20)
 	r.Checks(60, 2400)
@@ -170,11 +275,17 @@ func TestC20(t *testing.T) {
 
 		var nontrivial bool
 
-		nreopen, ncompared := 0, 0
+		nreopen, ncompared, nremoved := 0, 0, 0
+		justRemoved := base.NilHeight // argument of an effective RemoveBlocks since the last reopen
+
+		ever := &c20Ever{MaxH: base.NilHeight, MaxSufH: base.NilHeight, Keys: map[string]struct{}{}}
+		ever.note(e.M.last())
 
 		snapshot := func() dbSnap {
 			s := dbSnapshotReads(e, "center.", e.W.DB, e.M, e.AllOps)
+			s = append(s, c20EverSnapshot(e, "center.", e.W.DB, e.M, ever)...)
 			s = append(s, dbSnapshotReads(e, "perm.", e.W.Perm, e.M, e.AllOps)...)
+			s = append(s, c20EverSnapshot(e, "perm.", e.W.Perm, e.M, ever)...)
 			s = append(s, c20PoolSnapshot(e, pool, items)...)
 
 			return s
@@ -198,6 +309,16 @@ func TestC20(t *testing.T) {
 
 			hist.add("reopen")
 
+			// removal is durable: what RemoveBlocks made unreadable stays unreadable over a reopen (a special case of the equality
+			// below, reported under its own root cause)
+			if len(ever.Removed) > 0 {
+				if name, vb, found := c20Resurrected(before, after); found {
+					r.Violation(rt, "removed-readable-after-reopen", "%s was not found before closing and is answered after close+reopen; RemoveBlocks was "+
+						"called with %v (last=%d, permanent store holds <= %d): after: %s\nhistory: %s",
+						name, ever.Removed, e.M.lastHeight(), e.PermLast, dbShort(vb), hist)
+				}
+			}
+
 			if name, va, vb, differ := dbSnapDiff(before, after); differ {
 				r.Violation(rt, c20Sig(name, va, vb), "%s differs after close+reopen (last=%d, permanent store holds <= %d): %s\nhistory: %s",
 					name, e.M.lastHeight(), e.PermLast, dbDiffCtx(va, vb), hist)
@@ -206,12 +327,17 @@ func TestC20(t *testing.T) {
 			if pb := e.M.lastProof(); pb != nil && pb.H <= e.PermLast && e.oldestTemp() > base.NilHeight {
 				nontrivial = true
 			}
+
+			if justRemoved > base.NilHeight {
+				nontrivial = true
+				justRemoved = base.NilHeight
+			}
 		}
 
 		reopenAndCompare()
 
 		for i := 0; i < nsteps; i++ {
-			switch act := rapid.SampledFrom([]string{"block", "block", "block", "block", "merge", "merge", "pool"}).Draw(rt, "act"); act {
+			switch act := rapid.SampledFrom([]string{"block", "block", "block", "block", "merge", "merge", "pool", "remove"}).Draw(rt, "act"); act {
 			case "block":
 				big := rapid.IntRange(0, 24).Draw(rt, "big") == 0
 				p := dbDrawBlock(rt, e, big)
@@ -220,7 +346,53 @@ func TestC20(t *testing.T) {
 					rt.Fatalf("harness: next block %v: %+v\nhistory: %s", p.Kinds, err, hist)
 				}
 
+				ever.note(e.M.last())
 				hist.add("block%d%v", e.M.lastHeight(), p.Kinds)
+				reopenAndCompare()
+			case "remove":
+				last := e.M.lastHeight()
+
+				var h base.Height
+
+				switch rapid.IntRange(0, 5).Draw(rt, "removeWhich") {
+				case 0:
+					// merged, absent or not yet existing height: nothing to remove
+					h = base.Height(rapid.IntRange(0, int(last)+2).Draw(rt, "any"))
+				case 1, 2:
+					if e.oldestTemp() > base.NilHeight {
+						h = e.oldestTemp() + base.Height(rapid.IntRange(0, int(last-e.oldestTemp())).Draw(rt, "temp"))
+					} else {
+						h = last
+					}
+				default:
+					h = last
+				}
+
+				if h == base.GenesisHeight {
+					h = last + 1 // never drop the genesis block: the chain could not go on
+				}
+
+				removed, err := e.W.DB.RemoveBlocks(h)
+				if err != nil {
+					r.Violation(rt, "remove-error", "RemoveBlocks(%d) failed: %v\nhistory: %s", h, err, hist)
+				}
+
+				if removed {
+					if h <= e.PermLast || h > last {
+						// whether RemoveBlocks answers right is C19's business; the model cannot follow such an answer
+						rt.Fatalf("harness: RemoveBlocks(%d) answered true; last=%d, permanent store holds <= %d\nhistory: %s", h, last, e.PermLast, hist)
+					}
+
+					if err := e.dropFrom(h); err != nil {
+						rt.Fatalf("harness: %+v", err)
+					}
+
+					ever.Removed = append(ever.Removed, h)
+					justRemoved = h
+					nremoved++
+				}
+
+				hist.add("remove(%d)=%v", h, removed)
 				reopenAndCompare()
 			case "merge":
 				if err := e.MergeAll(); err != nil {
@@ -330,7 +502,12 @@ func TestC20(t *testing.T) {
 			classes = append(classes, "with-permanent-merge")
 		}
 
+		if nremoved > 0 {
+			classes = append(classes, "with-remove")
+		}
+
 		r.Class("reopens", int64(nreopen))
+		r.Class("effective-removes", int64(nremoved))
 		r.Class("compared-reads", int64(ncompared))
 		r.Class("settle-timeouts", int64(e.SettleTimeouts))
 		r.Case(hist.String(), nontrivial, classes...)
